@@ -997,7 +997,8 @@ fn c09_file(version: &str, spelling: usize, placement: usize, body_kind: usize, 
     let val = format!("{}{}", ops[spelling % ops.len()], version);
     let mut items: Vec<Item> = vec![];
     let sol = |b: &mut Builder| Item::Pragma(b.ids.next(), "solidity".into(), val.clone());
-    let exp = |b: &mut Builder| Item::Pragma(b.ids.next(), "experimental".into(), "ABIEncoderV2".into());
+    let exp_value = rng.ps(&["ABIEncoderV2", "ABIEncoderV2", "SMTChecker", "\"v0.5.0\"", "\"v0.9.9\""]).to_string();
+    let exp = |b: &mut Builder| Item::Pragma(b.ids.next(), "experimental".into(), exp_value.clone());
     let abi = |b: &mut Builder| Item::Pragma(b.ids.next(), "abicoder".into(), "v2".into());
     match placement {
         0 => items.push(sol(&mut b)),
@@ -1062,7 +1063,11 @@ fn c09_file(version: &str, spelling: usize, placement: usize, body_kind: usize, 
             }
         }
     }
-    let strings = ["\"\"", "\"short\"", "'thirty-one bytes long string 01'", "\"thirty-two bytes long string  012\"", "\"thirty-three bytes long string 0123\"", "\"a revert reason that is considerably longer than thirty-two bytes, one hundred bytes or so in total....\""];
+    let long256 = format!("\"{}\"", "a 256 byte long message..........".repeat(8));
+    let long260 = format!("\"{}abcd\"", "a 260 byte long message..........".repeat(8));
+    let long287 = format!("\"{}{}\"", "a 287 byte long message..........".repeat(8), "x".repeat(31));
+    let long530 = format!("\"{}{}\"", "a 530 byte long message..........".repeat(16), "y".repeat(18));
+    let strings: Vec<&str> = vec!["\"\"", "\"short\"", "'thirty-one bytes long string 01'", "\"thirty-two bytes long string  012\"", "\"thirty-three bytes long string 0123\"", "\"a revert reason that is considerably longer than thirty-two bytes, one hundred bytes or so in total....\"", &long256, &long260, &long287, &long530];
     for s in strings.iter() {
         if rng.chance(2, 3) {
             let r = b.var("require");
